@@ -14,3 +14,6 @@ from contracts import fieldtypes as FT
 UNITS = [FT.unit_text_init(), FT.unit_choice_init(), FT.unit_constant_init(), FT.unit_integer_init(), FT.unit_datetime_init(), FT.unit_decimal_init(), FT.unit_datetime_regex_pattern(), ST.unit_field_class_structure(), F.unit_validated(), F.unit_validate_characters(), F.unit_validate_empty(), F.unit_validate_length(), R.unit_range_validate()]
 from props import _groups as _G
 UNITS = _G.with_groups(PROPERTY, UNITS, _G.VALIDATION, _G.FIELD_DECLS)
+UNITS += [F.unit_c03_independent_cids()]
+from contracts import structure as ST2
+UNITS += [ST2.unit_no_hidden_state().also("C03")]
